@@ -26,7 +26,7 @@ SEMANTIC = [
 ]
 UNDECIDED = ["Resource limit (rlimit) exceeded", "rlimit", "timed out"]
 
-TAG_RE = re.compile(r"\[(C\d\d\.[A-Za-z0-9_]+)\]")
+TAG_RE = re.compile(r"\[((?:C\d\d|VAC)\.[A-Za-z0-9_]+)\]")
 
 
 class Undecided(Exception):
